@@ -307,8 +307,8 @@ func genScenario(rng *mrand.Rand, i int) *scenario {
 			pt.Arg = "[" + pt.Host + "]:443"
 		default:
 			pt.Host = originPool[perm[k]]
-			if k > 0 && rng.IntN(10) == 0 {
-				pt.Host = sc.Parts[0].Host // the same host named twice (mostly with another port)
+			if k > 0 && rng.IntN(10) == 0 && !strings.Contains(sc.Parts[0].Host, ":") {
+				pt.Host = sc.Parts[0].Host // the same host named twice (mostly with another port); not an IPv6 literal, which would need brackets
 			}
 			switch q := rng.IntN(100); {
 			case q < 40:
@@ -1259,7 +1259,11 @@ func runScenario(r *mon.Run, i int, sc *scenario, url string) {
 			}
 		case len(cands) > 0:
 			// I4
-			if got := classOfList(e.list, e.ListNil, e.Addr); got == "retry-list" {
+			got := classOfList(e.list, e.ListNil, e.Addr)
+			if got == "dns" {
+				got = "dns-of-other-part" // a list the zone has for this address, but under another part of the address string
+			}
+			if got == "retry-list" {
 				leak()
 			} else {
 				viol("I4:wrong-list:want-"+wantList+":got-"+got, "invocation #%d (%s, server name %q) uses %s; the zone gives %v for this address (PublicName %q)", j, e.Addr, e.ServerName, e.List, listsOf(cands), sc.PublicName)
